@@ -259,7 +259,7 @@ def stage_requests(w, rng, policy, n_cases, stats):
         rng.shuffle(roots)
         cands = stage_candidates(w, fname, roots, key)
         vals = [c[key] if key in c else '' for c in cands]
-        patsets = qo.derive_patterns(rng, vals, 2)
+        patsets = in_fragment(qo.derive_patterns(rng, vals, 2))
         pats, is_case, is_re, shape = rng.choice(patsets)
         if rng.random() < 0.3 and len(patsets) > 3:
             p2 = rng.choice(patsets)
@@ -283,7 +283,7 @@ def stage_requests(w, rng, policy, n_cases, stats):
             if e not in objs:
                 objs.append(e)
         vals = [e[key] if key in e else '' for e in objs]
-        pats, is_case, is_re, shape = rng.choice(qo.derive_patterns(rng, vals, 2))
+        pats, is_case, is_re, shape = rng.choice(in_fragment(qo.derive_patterns(rng, vals, 2)))
         ids = [w.index[id(e)] for e in objs]
         line = 'N %s %s %d %s %d %s %d %s' % (b(is_case), b(is_re), len(pats), ' '.join(tok_of_s(p) for p in pats),
                                               len(ids), ' '.join('%d %s' % (i, otok(w.objs[i][key] if key in w.objs[i] else None)) for i in ids),
@@ -313,7 +313,7 @@ def stage_requests(w, rng, policy, n_cases, stats):
         names = {}
         for k, e in enumerate(U):
             names[k] = qo.value_of(fname, e, None, root)
-        pats, is_case, is_re, shape = rng.choice(qo.derive_patterns(rng, list(names.values()), 2))
+        pats, is_case, is_re, shape = rng.choice(in_fragment(qo.derive_patterns(rng, list(names.values()), 2)))
         line = 'H %s %s %d %s %d %s %d %s 0' % (b(is_case), b(is_re), len(pats), ' '.join(tok_of_s(p) for p in pats),
                                                len(U), ' '.join('%d %s' % (k, tok_of_s(names[k])) for k in range(len(U))),
                                                len(U), ' '.join(str(k) for k in range(len(U))))
@@ -325,6 +325,12 @@ def stage_requests(w, rng, policy, n_cases, stats):
         reqs.append((dict(level='stage', function=fname, roots=[qo.elem_tok(w, root) if isinstance(root, qo.HRef) else 'E%d' % w.index[id(root)]],
                           recursive=rec, pats=pats, is_case=is_case, is_re=is_re, shape=shape, policy=policy, request=line), line, impl))
     return reqs
+
+
+def in_fragment(patsets):
+    """the stage-level comparison with the model uses only pattern shapes inside the modelled regex fragment (the
+    class escapes \\S \\D \\W \\w \\d are outside it: those shapes are judged by the oracle on the implementation only)"""
+    return [ps for ps in patsets if 'class' not in ps[3]]
 
 
 def norm_ids(ans):
